@@ -179,3 +179,28 @@ def asm2dRows (m n dr dc : Nat) (lamr lamc : Rat) (w : List Rat) : List (List Ra
   (List.range (m * n)).map fun (a : Nat) => (List.range (m * n)).map fun (b : Nat) => asm2d m n dr dc lamr lamc w a b
 
 end PbVerif.Whittaker
+
+namespace PbVerif.Whittaker
+open PbVerif.Banded
+
+/-! ### jbcd (`morphological.py: _Morphological.jbcd`): two banded systems per iteration, both `c · penalty` with a constant added to
+the main row (`_setup_whittaker(y, lam=1, diff_order)`, so `whittaker_system.penalty` is `1 · D'D` in the layout of the solver:
+lower, full, or full reversed under pentapy) -/
+
+/-- `lhs = c * whittaker_system.penalty; lhs[main_diag_idx] += diag` -/
+def asmJbcd (n d : Nat) (c diag : Rat) (lower reversed : Bool) : List (List Rat) :=
+  let pen := scale c (scale 1 (bandsQ n d lower))
+  let pen := if reversed then pen.reverse else pen
+  let mainIdx := if lower then 0 else d
+  addRowC pen mainIdx diag
+
+/-- `lhs_1 = gamma * penalty; lhs_1[main] += 1` (signal step) — NOTE the code uses `gamma`, the documentation `2·gamma` -/
+def asmJbcdSignal (n d : Nat) (gamma : Rat) (lower reversed : Bool) : List (List Rat) := asmJbcd n d gamma 1 lower reversed
+/-- `lhs_2 = (2 * beta) * penalty; lhs_2[main] += 1 + 2 * alpha` (baseline step) -/
+def asmJbcdBaseline (n d : Nat) (alpha beta : Rat) (lower reversed : Bool) : List (List Rat) :=
+  asmJbcd n d (2 * beta) (1 + 2 * alpha) lower reversed
+
+/-- `diag·I + c·D'D` -/
+def docJbcd (n d : Nat) (c diag : Rat) (i j : Nat) : Rat := delta i j diag + c * dtdQ n d i j
+
+end PbVerif.Whittaker
